@@ -295,7 +295,7 @@ namespace RecInt
     template <typename T>
     inline __RECINT_IS_ARITH(T, void) sub(bool& r, ruint<__RECINT_LIMB_SIZE>& a, const ruint<__RECINT_LIMB_SIZE>& b, const T& c) {
         r = (b.Value < limb(c));
-        a.Value = b.Value - c;
+        a.Value = b.Value - limb(c);
     }
 
     // a -= b    (r stores the borrow)
@@ -313,7 +313,7 @@ namespace RecInt
     template <typename T>
     inline __RECINT_IS_ARITH(T, void) sub(bool& r, ruint<__RECINT_LIMB_SIZE>& a, const T& b) {
         r = (a.Value < limb(b));
-        a.Value = a.Value - b;
+        a.Value = a.Value - limb(b);
     }
 
     // a = b - c    (the borrow is lost)
@@ -345,7 +345,7 @@ namespace RecInt
     }
     template <typename T>
     inline __RECINT_IS_ARITH(T, void) sub(ruint<__RECINT_LIMB_SIZE>& a, const T& b) {
-        a.Value = a.Value - b;
+        a.Value = a.Value - limb(b);
     }
 
 
